@@ -1,4 +1,169 @@
-//! C03 — stub, not built yet.
+//! C03 — a cloned interpreter is an independent snapshot; re-running it is deterministic.
+//! Exploration over histories: a pool of interpreter states; operations = evaluate a source on one
+//! copy (programs, definitions, variable stores, vector/map updates, in-place-looking bit-string
+//! operations on values shared between copies, late-bound words, stepping and reverse-stepping),
+//! clone (also clone of clone), drop. After every operation the canonical dump of every *other*
+//! copy must be unchanged; a snapshot and its origin given the same later sources must produce the
+//! same results, dumps and output.
+//! Correspondence: every evaluated source is also sent to the model as a `C01 eval` request on the
+//! machine as it was before the operation (the model is a pure function of that machine: what it
+//! answers for one copy cannot depend on any other copy).
+use crate::canon;
+use crate::progen::{gen_program, GenCfg};
+use crate::props::c01::{dict_for, lex_all, LIMIT};
+use crate::vmcanon;
 use crate::Ctx;
+use xeh::prelude::*;
 
-pub fn run(_ctx: &mut Ctx) {}
+fn snapshot(xs: &mut Xstate) -> String {
+    let d = xs.verif_dump();
+    // host objects (the d2 canvas) are observable only through their own words: read two pixels on a throw-away copy
+    let host = if xs.word_list().iter().any(|w| w.as_str() == "d2-data") {
+        let mut probe = xs.clone();
+        let _ = probe.eval("0 0 d2-data 1 1 d2-data 2 collect");
+        probe.get_data(0).map(canon::cell).unwrap_or_default()
+    } else { String::new() };
+    let vars: Vec<String> = xs.var_list().iter().map(|(n, c)| format!("{}={}", n, canon::cell(c))).collect();
+    format!("{} | host={} dict={} code={} dmap={} flows={} nested={} inputs={} mode={} marks={:?} | vars={}",
+        vmcanon::full_dump(xs), host, d.dict_len, d.code_len, d.debug_map_len, d.flows, d.nested, d.pending_inputs, d.mode, d.marks, vars.join(","))
+}
+
+const SHARED_SETUP: &[&str] = &[
+    "|ff 00 a5| var bs  [ 1 2 3 ] var vv  { 1 \"a\" 2 \"b\" } var mm  \"text\" var ss  0 var cnt",
+    "|12 34 56| open-bitstr 4 bits var half  8 bits var mid",
+    ": inc cnt 1 + ! cnt ; late later : uses-later later ;",
+];
+
+fn adversarial(r: &mut crate::rng::Rng) -> String {
+    let pool = [
+        "bs |0f| bitstr-append ! bs", "bs bitstr-not ! bs", "|01| bs bitstr-append drop", "bs bitstr-not drop",
+        "half |f| bitstr-append ! half", "mid bitstr-not ! mid", "half mid bitstr-append ! bs",
+        "bs open-bitstr 3 bits drop 5 bits ! half", "[ bs bs ] >bitstr ! bs", "bs |ff| bitstr-and ! bs",
+        "9 vv push ! vv", "vv reverse ! vv", "vv 0 nth drop", "mm 7 3 insert ! mm", "mm 1 remove ! mm", "mm 2 get drop",
+        "ss \"x\" 2 collect concat ! ss", "inc inc", "cnt 5 + ! cnt", ": later 42 ;", "uses-later drop", ": inc cnt 10 + ! cnt ;",
+        "bs length drop", "vv length ! cnt", "7 var fresh", "bs", "drop", "[ 1 2 ] foreach I ! cnt loop", "3 0 do cnt 1 + ! cnt loop",
+        "bs emit", "\"out\" print", "cnt println",
+    ];
+    let n = r.below(3) + 1;
+    (0..n).map(|_| *r.pick(&pool)).collect::<Vec<_>>().join(" ")
+}
+
+struct Copy_ {
+    xs: Xstate,
+    d2: bool,
+    used_d2: bool,
+}
+
+pub fn run(ctx: &mut Ctx) {
+    let cfg = GenCfg { endless: false, malformed_percent: 15, max_depth: 3, ..GenCfg::default() };
+    for _ in 0..ctx.n {
+        let with_d2 = ctx.rng.chance(15);
+        let mut base = Xstate::boot().unwrap();
+        if with_d2 { xeh::d2_plugin::load(&mut base).unwrap(); }
+        base.intercept_stdout(true);
+        base.intercept_output(true).unwrap();
+        base.set_insn_limit(Some(LIMIT)).unwrap();
+        for s in SHARED_SETUP { let _ = base.eval(s); }
+        if with_d2 { let _ = base.eval("4 3 d2-resize"); }
+        let mut pool: Vec<Copy_> = vec![Copy_ { xs: base, d2: with_d2, used_d2: false }];
+        let nops = ctx.rng.below(if ctx.thorough { 20 } else { 12 }) + 2;
+        let mut history: Vec<String> = Vec::new();
+        for _ in 0..nops {
+            let i = ctx.rng.below(pool.len());
+            let before: Vec<String> = pool.iter_mut().map(|c| snapshot(&mut c.xs)).collect();
+            let kind = ctx.rng.below(10);
+            let mut touched_d2 = false;
+            match kind {
+                0 | 1 => { // clone (also clone of clone)
+                    let c = Copy_ { xs: pool[i].xs.clone(), d2: pool[i].d2, used_d2: pool[i].used_d2 };
+                    pool.push(c);
+                    history.push(format!("clone {}", i));
+                    ctx.tag("op:clone");
+                    // the fresh snapshot renders exactly like its origin
+                    let n = pool.len() - 1;
+                    let a = snapshot(&mut pool[i].xs);
+                    let b = snapshot(&mut pool[n].xs);
+                    ctx.check(a == b, || format!("C03 {}", history.join("; ")), || a.clone(), || b.clone());
+                }
+                2 => { if pool.len() > 1 { pool.remove(i); history.push(format!("drop {}", i)); ctx.tag("op:drop"); continue; } }
+                3 => { // step / reverse-step a compiled program on one copy
+                    let (src, _) = gen_program(&mut ctx.rng, &cfg);
+                    let xs = &mut pool[i].xs;
+                    xs.set_recording_enabled(true);
+                    if let Some(Ok(())) = crate::guarded(|| xs.compile(&src)) {
+                        for _ in 0..ctx.rng.below(20) { if crate::guarded(|| xs.next()).map(|r| r.is_err()).unwrap_or(true) { break; } }
+                        for _ in 0..ctx.rng.below(10) { let _ = crate::guarded(|| xs.rnext()); }
+                        let _ = crate::guarded(|| xs.run());
+                    }
+                    xs.set_recording_enabled(false);
+                    history.push(format!("step/rstep {} `{}`", i, src));
+                    ctx.tag("op:step-rstep");
+                }
+                _ => { // evaluate a source on one copy
+                    let src = if pool[i].d2 && ctx.rng.chance(40) {
+                        touched_d2 = true;
+                        (*ctx.rng.pick(&["1 2 d2-resize", "0 0 d2-data! ", "5 d2-color! 1 1 d2-data!", "2 5 d2-resize 0 1 d2-data drop"])).to_string()
+                    } else if ctx.rng.chance(60) { adversarial(&mut ctx.rng) } else { gen_program(&mut ctx.rng, &cfg).0 };
+                    // correspondence: the model evaluates the same source on the machine as it is now
+                    if !pool[i].d2 {
+                        if let Some(t) = lex_all(&src) {
+                            let xs = &mut pool[i].xs;
+                            let d = xs.verif_dump();
+                            if d.mode == "eval" && d.nested == 0 && d.flows == 0 && d.pending_inputs == 0 && d.ip == d.code_len && d.frames.is_empty() && d.loops.is_empty() && d.special.is_empty() {
+                                let setup = format!("toks={} dict={} code={} heap=v({}) ds=v({}) lim={}/-/- meter={} view=core",
+                                    t.text.join("|"), dict_for(xs, &t.words), vmcanon::code_str(xs),
+                                    d.heap.iter().map(canon::cell).collect::<Vec<_>>().join(","),
+                                    d.data_visible.iter().map(canon::cell).collect::<Vec<_>>().join(","), LIMIT, d.insn_meter);
+                                let mut probe = xs.clone();
+                                let build_err = matches!(crate::guarded(|| probe.compile(&src)), Some(Err(_)));
+                                let mut ys = xs.clone();
+                                let r = crate::guarded(|| ys.eval(&src));
+                                let ans = match r {
+                                    None => "panic@".to_string(),
+                                    Some(Ok(())) => format!("ok@{}", vmcanon::core_dump(&ys.verif_dump())),
+                                    Some(Err(e)) => if build_err { format!("builderr {} tok=*", canon::err(&e)) } else { format!("err {} tok=*@{}", canon::err(&e), vmcanon::core_dump(&ys.verif_dump())) },
+                                };
+                                ctx.case(format!("C03 eval {}", setup), ans);
+                            }
+                        }
+                    }
+                    let xs = &mut pool[i].xs;
+                    let _ = crate::guarded(|| xs.eval(&src));
+                    if touched_d2 { pool[i].used_d2 = true; }
+                    history.push(format!("eval {} `{}`", i, src));
+                    ctx.tag(if touched_d2 { "op:eval-d2" } else { "op:eval" });
+                }
+            }
+            // independence: no other copy changed
+            let mut k = 0;
+            for (j, b) in before.iter().enumerate() {
+                if j >= pool.len() { break; }
+                if j == i && kind > 2 || (kind == 3 && j == i) { k += 1; continue; }
+                if j == i { continue; }
+                let now = snapshot(&mut pool[j].xs);
+                let marker = if touched_d2 || pool.iter().any(|c| c.used_d2) { "[anyrc-shared] " } else { "" };
+                let h = history.join("; ");
+                ctx.check(*b == now, || format!("{}C03 copy {} changed by an operation on copy {}: {}", marker, j, i, h), || b.clone(), || now.clone());
+                k += 1;
+            }
+            let _ = k;
+        }
+        // determinism: a snapshot and its origin, given the same later sources, behave identically
+        let i = ctx.rng.below(pool.len());
+        if !pool[i].d2 {
+            let mut a = pool[i].xs.clone();
+            let mut b = pool[i].xs.clone();
+            let mut srcs = Vec::new();
+            for _ in 0..3 { srcs.push(if ctx.rng.bool() { adversarial(&mut ctx.rng) } else { gen_program(&mut ctx.rng, &cfg).0 }); }
+            let mut ra = Vec::new(); let mut rb = Vec::new();
+            for s in &srcs { ra.push(format!("{:?}", crate::guarded(|| a.eval(s)).map(|r| r.map_err(|e| canon::err(&e))))); }
+            // interleave unrelated activity on the origin before replaying on the second snapshot
+            let _ = crate::guarded(|| pool[i].xs.eval("cnt 1000 + ! cnt bs bitstr-not ! bs"));
+            for s in &srcs { rb.push(format!("{:?}", crate::guarded(|| b.eval(s)).map(|r| r.map_err(|e| canon::err(&e))))); }
+            let (sa, sb) = (snapshot(&mut a), snapshot(&mut b));
+            let h = history.join("; ");
+            ctx.check(ra == rb && sa == sb, || format!("C03 replay after [{}] of {:?}", h, srcs), || format!("{:?} {}", ra, sa), || format!("{:?} {}", rb, sb));
+            ctx.tag("determinism-check");
+        }
+    }
+}
